@@ -242,6 +242,41 @@ def labels(ctx):
       if lab.dtype != np.float64 or [float(x) for x in lab[:, 0]] != [sign * v for v in vals] or back != vals:
         ctx.violation({'via': 'labels', 'converter': 'TrialToContinuousAndCategoricalConverter', 'goal': goal, 'flip': flip},
                       {'kind': 'labels', 'values': vals, 'labels': [float(x) for x in lab[:, 0]], 'dtype': str(lab.dtype), 'came_back': back})
+  n += merged_conditional(ctx)
+  return n
+
+
+def merged_conditional(ctx):
+  """A parameter name that occurs under several parent values with different domains is encoded over the UNION of its
+  domains: every valid trial encodes into the unit interval / a valid category and decodes to itself."""
+  from vizier import pyvizier as vz
+  from vizier.pyvizier import converters
+  n = 0
+  for order in ([0, 1, 2], [1, 0, 2], [2, 1, 0], [0, 2, 1]):          # the widest domain first, in the middle, last
+    branches = [('a', (0.1, 0.5), ['x', 'y']), ('b', (0.01, 2.0), ['x', 'y', 'z']), ('c', (0.2, 0.3), ['y'])]
+    p = vz.ProblemStatement()
+    m = p.search_space.root.add_categorical_param('model', ['a', 'b', 'c'])
+    for k in order:
+      val, (lo, hi), cats = branches[k]
+      sub = m.select_values([val])
+      sub.add_float_param('lr', lo, hi)
+      sub.add_categorical_param('opt', cats)
+    p.metric_information.append(vz.MetricInformation('m', goal=vz.ObjectiveMetricGoal.MAXIMIZE))
+    pts = [{'model': 'b', 'lr': 2.0, 'opt': 'z'}, {'model': 'b', 'lr': 0.01, 'opt': 'y'}, {'model': 'a', 'lr': 0.1, 'opt': 'x'}, {'model': 'a', 'lr': 0.5, 'opt': 'y'},
+           {'model': 'c', 'lr': 0.25, 'opt': 'y'}]
+    for dtype in (np.float32, np.float64):
+      n += 1
+      try:
+        conv = converters.TrialToArrayConverter.from_study_config(p, scale=True, dtype=dtype)
+        feats = np.asarray(conv.to_features([vz.Trial(parameters=q) for q in pts]))
+        back = [{k: v.value for k, v in d.items()} for d in conv.to_parameters(feats)]
+        in01 = bool(np.all(feats >= -1e-6) and np.all(feats <= 1 + 1e-6))
+        same = all(b.get('model') == q['model'] and b.get('opt') == q['opt'] and abs(b.get('lr', 1e9) - q['lr']) <= 1e-4 * max(1.0, q['lr']) for b, q in zip(back, pts))
+      except Exception as e:  # pylint: disable=broad-except
+        in01, same, back = False, False, '%s: %s' % (type(e).__name__, str(e)[:100])
+      if not (in01 and same):
+        ctx.violation({'via': 'merged-conditional', 'what': 'outside_unit_interval' if not in01 else 'round_trip', 'branch_order': ''.join(map(str, order))},
+                      {'kind': 'merged-conditional', 'branch_order': order, 'points': pts, 'came_back': back})
   return n
 
 
